@@ -54,4 +54,7 @@ def cluster_select(R):
 
 
 def replay(R, payload):
+    if payload.get("engine") == "cluster":
+        from .. import clustersuite
+        return clustersuite.replay_cluster(R, payload)
     return core.generic_replay(R, payload)
